@@ -134,6 +134,11 @@ def zrangebyscore (z : ZSet) (lo hi : Score) : ZSet := z.filter (fun e => lo.le 
 def zrevrangebyscore (z : ZSet) (lo hi : Score) : ZSet := (zrangebyscore z lo hi).reverse
 def zcount (z : ZSet) (lo hi : Score) : Nat := z.countP (fun e => lo.le e.1 && e.1.le hi)
 
+/-- ZPOPMIN / ZPOPMAX with a count: the first / last `count` entries, lowest resp. highest first. -/
+def zpopN (max : Bool) (count : Nat) (z : ZSet) : ZSet × ZSet :=
+  if max then (z.take (z.length - count), (z.drop (z.length - count)).reverse)
+  else (z.drop count, z.take count)
+
 def zpopmin (z : ZSet) : Option (Entry × ZSet) :=
   match z with
   | [] => none
@@ -166,6 +171,32 @@ def zaddCmd (ps : List (Option CScore × Bytes)) (z : ZSet) : ZSet × Bool :=
   | some vs => (zaddAll vs z, true)
   | none => (z, false)
 
+/-- ZINCRBY as a command: refused (nothing changes) when the increment or the sum is NaN. -/
+def zincrbyCmd (sum : CScore) (m : Bytes) (z : ZSet) : ZSet × Option Score :=
+  match sum with
+  | .nan => (z, none)
+  | .num s => (zincrby m s z, some s)
+
+end Spec
+
+/-- The mutating sorted-set commands on one key (scores are numbers; `h` is the tower height
+    the skip list will draw, `sum` the IEEE sum computed by the caller). -/
+inductive Cmd where
+  | zadd (h : Nat) (m : Bytes) (s : Score)
+  | zincrby (h : Nat) (m : Bytes) (sum : Score)
+  | zrem (m : Bytes)
+  | popmin
+  | popmax
+  deriving Repr
+
+namespace Spec
+def applyCmd (z : ZSet) : Cmd → ZSet
+  | .zadd _ m s => zadd m s z
+  | .zincrby _ m sum => zincrby m sum z
+  | .zrem m => zrem m z
+  | .popmin => match zpopmin z with | none => z | some (_, r) => r
+  | .popmax => match zpopmax z with | none => z | some (_, r) => r
+def runCmds (cs : List Cmd) : ZSet := cs.foldl applyCmd []
 end Spec
 
 /-! ## Code: skiplist.rs -/
@@ -392,6 +423,52 @@ def zaddCmd (fixed : Bool) : List Nat → List (Option CScore × Bytes) → ZKey
       else
         let r := zadd (hs.headD 0) m s k
         zaddCmd fixed hs.tail ps r.1 (if r.2 then n + 1 else n)
+
+/-- `handle_zincrby` + `StorageEngine::zincrby`: the sum is stored whatever it is;
+    `fixed = true`: a NaN sum is refused before the mutation. -/
+def zincrbyCmd (fixed : Bool) (h : Nat) (m : Bytes) (sum : CScore) (k : ZKey) : ZKey × Option CScore :=
+  if fixed && decide (sum = .nan) then (k, none) else ((zincrby h m sum k).1, some sum)
+
+/-- The loop of `handle_zpopmin` / `handle_zpopmax` (`count` iterations): an empty `zrange`
+    reply ends it; a member that `zrem` does not find (possible only after a NaN was stored) is
+    skipped without ending it. -/
+def zpopLoop (fixed max : Bool) : Nat → ZKey → List CEntry → ZKey × List CEntry
+  | 0, k, acc => (k, acc)
+  | n + 1, k, acc =>
+    match zrange fixed (if max then -1 else 0) (if max then -1 else 0) false k with
+    | [] => (k, acc)
+    | e :: _ => let r := zrem e.2 k; zpopLoop fixed max n r.1 (if r.2 then acc ++ [e] else acc)
+
+def applyCmd (fixed : Bool) (k : ZKey) : Cmd → ZKey
+  | .zadd h m s => (zadd h m (.num s) k).1
+  | .zincrby h m sum => (zincrby h m (.num sum) k).1
+  | .zrem m => (zrem m k).1
+  | .popmin => (zpop fixed false k).1
+  | .popmax => (zpop fixed true k).1
+def runCmds (fixed : Bool) (cs : List Cmd) : ZKey := cs.foldl (applyCmd fixed) none
+
+/-! Executable check of the structural invariant (printed by the driver as `inv=`). -/
+def sortedB : List CEntry → Bool
+  | [] => true
+  | [_] => true
+  | a :: b :: r => centLt a b && sortedB (b :: r)
+def sublistB : List CEntry → List CEntry → Bool
+  | [], _ => true
+  | _ :: _, [] => false
+  | a :: u, b :: l => if a = b then sublistB u l else sublistB (a :: u) l
+def chainB : List (List CEntry) → Bool
+  | [] => true
+  | [_] => true
+  | l :: u :: r => sublistB u l && chainB (u :: r)
+def invB (sl : SkipList) : Bool :=
+  !sl.levels.isEmpty && sl.levels.all sortedB && chainB sl.levels &&
+  (level0 sl).all (fun e => decide (e.1 ≠ .nan)) &&
+  decide (sl.keyIndex.map (fun p => (p.2, p.1)) = insSortedAll (level0 sl)) &&
+  decide (sl.length = (level0 sl).length)
+where
+  /-- level 0 re-sorted by key (what the key index must list) -/
+  insSortedAll (l : List CEntry) : List CEntry :=
+    l.foldl (fun acc e => insSorted (fun a b => bytesLt a.2 b.2) e acc) []
 
 end Code
 
